@@ -176,6 +176,12 @@ class Program:
                     tree = ast.parse(src, filename=path)
                 except SyntaxError as e:  # the tree must compile
                     raise AnalysisError(f"cannot parse {path}: {e}") from e
+                if os.environ.get("PV_NO_INLINE") != "1":
+                    from . import inline
+                    self.inlined_calls = getattr(self, "inlined_calls", 0) + inline.apply(tree, name)
+                if os.environ.get("PV_NO_NORMAL") != "1":
+                    from . import normal
+                    self.normalised = getattr(self, "normalised", 0) + normal.apply(tree)
                 if os.environ.get("PV_NO_ROLES") != "1":
                     from . import roles
                     self.renamed_locals = getattr(self, "renamed_locals", 0) + roles.apply(tree, name)
